@@ -55,7 +55,7 @@ pub struct MultipartBody {
 #[async_trait]
 impl ExclusiveExtractor for MultipartBody {
     async fn from_request<Context: ServerContext>(
-        _rqctx: &RequestContext<Context>,
+        rqctx: &RequestContext<Context>,
         request: hyper::Request<crate::Body>,
     ) -> Result<Self, HttpError> {
         let (parts, body) = request.into_parts();
@@ -85,9 +85,11 @@ impl ExclusiveExtractor for MultipartBody {
                 "missing boundary in content-type header".to_string(),
             )
         })?;
-        Ok(MultipartBody {
-            content: multer::Multipart::new(body.into_data_stream(), boundary),
-        })
+        // The body is subject to the same size limit as with any other body
+        // extractor.
+        let stream = StreamingBody::new(body, rqctx.request_body_max_bytes())
+            .into_stream();
+        Ok(MultipartBody { content: multer::Multipart::new(stream, boundary) })
     }
 
     fn metadata(
